@@ -9,6 +9,7 @@ import uuid
 from collections import defaultdict, deque
 from itertools import count, tee, zip_longest
 from typing import (
+    AbstractSet,
     Any,
     Callable,
     Dict,
@@ -16,6 +17,7 @@ from typing import (
     Iterable,
     List,
     Literal,
+    Mapping,
     Set,
     Tuple,
     TypeVar,
@@ -45,14 +47,14 @@ def freeze_value(value: Any) -> Any:
     """
     if isinstance(value, (str, int)):
         return value
-    if isinstance(value, dict):
+    if isinstance(value, Mapping):
         return frozendict(
             {
                 dict_key: freeze_value(dict_value)
                 for dict_key, dict_value in value.items()
             }
         )
-    if isinstance(value, set):
+    if isinstance(value, AbstractSet):
         return frozenset(freeze_value(element) for element in value)
     if isinstance(value, (list, tuple)):
         return tuple(freeze_value(element) for element in value)
